@@ -85,6 +85,9 @@ type SyncOpts struct {
 	RealS, RealR                          bool
 	Extra                                 vt.Ev // extra fields for the Begin event
 	NoProgress                            bool
+	// PuppetS / PuppetR replace the real call on that side by a reference peer
+	PuppetS func(conn *hstream.Conn) error
+	PuppetR func(conn *hstream.Conn) error
 }
 
 type SyncResult struct {
@@ -153,7 +156,7 @@ func topFrames(stack string) string {
 // RunSync runs the real Send and the real Receive against each other.
 func RunSync(caseNo int, srcDir, dstDir string, o SyncOpts) (*SyncResult, error) {
 	if o.Timeout == 0 {
-		o.Timeout = 20 * time.Second
+		o.Timeout = 6 * time.Second
 	}
 	if o.Differ == "" {
 		o.Differ = "metadata"
@@ -191,7 +194,7 @@ func RunSync(caseNo int, srcDir, dstDir string, o SyncOpts) (*SyncResult, error)
 	conn.Content = func(id uint32, path string) ([]byte, bool) { return content(path) }
 
 	begin := vt.Ev{"ev": "Begin", "case": caseNo, "mode": o.Mode, "differ": o.Differ,
-		"realS": true, "realR": true, "before": before.Ev(), "metaOnly": o.MetadataOnly != nil}
+		"realS": o.PuppetS == nil, "realR": o.PuppetR == nil, "before": before.Ev(), "metaOnly": o.MetadataOnly != nil}
 	for k, v := range o.Extra {
 		begin[k] = v
 	}
@@ -265,7 +268,7 @@ func RunSync(caseNo int, srcDir, dstDir string, o SyncOpts) (*SyncResult, error)
 	}
 	if !o.NoProgress {
 		ropt.ProgressCb = func(v int, last bool) {
-			if !o.Quiet || last {
+			if last {
 				conn.Log(vt.Ev{"ev": "Progress", "side": "R", "v": v, "last": last})
 			}
 		}
@@ -283,7 +286,12 @@ func RunSync(caseNo int, srcDir, dstDir string, o SyncOpts) (*SyncResult, error)
 	sDone, rDone := make(chan struct{}), make(chan struct{})
 	go func() {
 		defer close(sDone)
-		err := fsutil.Send(sctx, conn.S, src, sprog)
+		var err error
+		if o.PuppetS != nil {
+			err = o.PuppetS(conn)
+		} else {
+			err = fsutil.Send(sctx, conn.S, src, sprog)
+		}
 		res.SOK = err == nil
 		if err != nil {
 			res.SErr = err.Error()
@@ -293,7 +301,12 @@ func RunSync(caseNo int, srcDir, dstDir string, o SyncOpts) (*SyncResult, error)
 	}()
 	go func() {
 		defer close(rDone)
-		err := fsutil.Receive(rctx, conn.R, dstDir, ropt)
+		var err error
+		if o.PuppetR != nil {
+			err = o.PuppetR(conn)
+		} else {
+			err = fsutil.Receive(rctx, conn.R, dstDir, ropt)
+		}
 		res.ROK = err == nil
 		if err != nil {
 			res.RErr = err.Error()
@@ -301,8 +314,13 @@ func RunSync(caseNo int, srcDir, dstDir string, o SyncOpts) (*SyncResult, error)
 		conn.Log(vt.Ev{"ev": "Return", "side": "R", "ok": err == nil, "err": trunc(res.RErr)})
 		conn.R.TearDown()
 	}()
-	timer := time.NewTimer(o.Timeout)
+	// hang = some call has not returned and nothing happened on the stream for
+	// o.Timeout; confirmed by two goroutine dumps.  A slow peer keeps producing
+	// activity and is never a hang; an overall cap turns endless activity into
+	// a Stall (inconclusive).
+	timer := time.NewTicker(200 * time.Millisecond)
 	defer timer.Stop()
+	started := time.Now()
 	sRet, rRet := false, false
 	for !(sRet && rRet) {
 		select {
@@ -311,6 +329,12 @@ func RunSync(caseNo int, srcDir, dstDir string, o SyncOpts) (*SyncResult, error)
 		case <-rDone:
 			rRet, rDone = true, nil
 		case <-timer.C:
+			if time.Since(conn.LastActivity()) < o.Timeout && time.Since(started) < 40*o.Timeout {
+				continue
+			}
+			if time.Since(conn.LastActivity()) < o.Timeout {
+				conn.Log(vt.Ev{"ev": "Stall"})
+			}
 			// hang: confirm with two goroutine dumps
 			g1 := fsutilGoroutines()
 			time.Sleep(1500 * time.Millisecond)
